@@ -129,6 +129,7 @@ PROPS = {
     ),
     "C29": dict(
         verus=["lru"],
+        standins=["lru"],
         not_decided="ObjectCache's RwLock wrapper (concurrency) is an argument in DESIGN.md, not a proof",
         trusted=["std::collections::VecDeque::retain: mask-style assume_specification (DESIGN 2.1)"],
     ),
